@@ -114,6 +114,9 @@ def build_pair(seed, idx, mode, tier):
         B = A
     elif mode == "same-layout":
         B = scen_gen.rand_scenario(rng, like=A)
+    elif mode == "permuted":
+        # the same names in another order: the same *set* of columns, a different layout
+        B = scen_gen.permute_names(A)
     else:
         for _ in range(50):
             B = scen_gen.rand_scenario(rng)
@@ -172,8 +175,15 @@ def run_pair(args):
                                      equal_layout=equal,
                                      got={f_: str(got.get(f_))[:120] for f_ in fields[:4]},
                                      want={f_: str(want.get(f_))[:120] for f_ in fields[:4]}))
-                if not equal:
+                # the class-level layout of HostVector is the one installed last (by a construction or by
+                # generate_initial_state); the known finding explains the *other* environment going wrong,
+                # never the one whose layout is installed
+                owner = [o[1] for o in ops[:k + 1] if o[0] in ("construct", "geninit")][-1]
+                f["replay"]["layout_owner"] = owner
+                if not equal and i != owner:
                     f["key"] = "C19:different-layouts"
+                elif not equal:
+                    f["what"] += " (the environment whose own layout is the installed one)"
                 res["findings"].append(f)
                 break
         res["sample"] = dict(mode=mode, equal_layout=equal, ops=[list(o) for o in ops[:8]],
@@ -192,7 +202,8 @@ BUDGET = {"quick": dict(same_scenario=6, same_layout=30, different=10),
 def run(tier, seed):
     import runner
     b, tier = runner.budget(BUDGET, tier)
-    modes = ["same-scenario"] * b["same_scenario"] + ["same-layout"] * b["same_layout"] + ["different"] * b["different"]
+    modes = ["same-scenario"] * b["same_scenario"] + ["same-layout"] * b["same_layout"] + ["different"] * b["different"] \
+        + ["permuted"] * max(2, b["different"] // 2)
     tasks = [(seed, i, m, tier) for i, m in enumerate(modes)]
     rs = runner.pmap(run_pair, tasks)
     runner.stamp("multi", "run_pair", tasks, rs)
